@@ -3,7 +3,7 @@
 //! entropy and the hash keys a function of one integer.  No cfg(quizx_verif): this
 //! is the shipped code.
 //!
-//! usage: qmiri <workload seed> <W>
+//! usage: qmiri <workload seed> <W> [big]
 //! prints "E2 ok ..." and exits 0, or "E2 MISMATCH ..." and exits 3.
 
 use num::Rational64;
@@ -87,10 +87,14 @@ fn main() {
     let mut g = Graph::new();
     let mut t = 0;
     let mut n = 0usize;
-    if r.below(3) == 0 {
-        n = 3 + r.below(4) as usize;
+    // one workload in eight is larger (8..10 spiders, up to 9 T): size cutoffs inside the parallel
+    // code ("below k T spiders stay on the current thread") hide everything smaller
+    let big = a.get(3).map(|s| s == "big").unwrap_or(false);
+    if big || r.below(3) == 0 {
+        n = if big { 8 + r.below(3) as usize } else { 3 + r.below(4) as usize };
+        let tcap = if big { 9 } else { 5 };
         for _ in 0..n {
-            let k = if t < 5 && r.below(3) != 0 {
+            let k = if t < tcap && (big || r.below(3) != 0) {
                 t += 1;
                 [1, 3, 5, 7][r.below(4) as usize]
             } else {
